@@ -193,7 +193,7 @@ class HCreateSolution(Handler):
         if pt is not None:
             tv, tb = pt
             got = R.measure(res.contents, tb)
-            tol = K * (H1.storage_noise_in(res.contents, tb) * 2 + H1.request_quantum(tb, len(res.contents))) + 1e-8 * abs(tv)
+            tol = K * (H1.storage_noise_in(res.contents, tb) * 2 + H1.request_quantum(tb, res.contents)) + 1e-8 * abs(tv)
             if not M.ratio('SOLN.total', got, tv, tol):
                 M.violate(['C05'], 'SOLN', f'C05:total_quantity_not_met:{tb}:{skind}',
                           {'total_quantity': total, 'target': tv, 'unit': tb, 'got': got, 'tol': tol,
@@ -301,7 +301,7 @@ class HCreateSolutionFrom(Handler):
         bad = False
         # total
         got_total = R.measure(new.contents, qb)
-        tol = K * (H1.storage_noise_in(new.contents, qb) * 3 + H1.request_quantum(qb, len(new.contents)) * 3) + 1e-7 * abs(qv)
+        tol = K * (H1.storage_noise_in(new.contents, qb) * 3 + H1.request_quantum(qb, new.contents) * 3) + 1e-7 * abs(qv)
         if not M.ratio('FROM.total', got_total, qv, tol):
             bad = True
             M.violate(['C12'], 'FROM', f'C12:total_quantity_not_met:q={qb}:{skind}',
